@@ -169,7 +169,8 @@ func fillCertFields(template *x509.Certificate, subjectPub, issuerPub crypto.Pub
 	template.SignatureAlgorithm = X509SignatureAlgorithm(issuerPub)
 	template.NotBefore = time.Now().Add(time.Hour * -24)
 	template.NotAfter = time.Now().Add(time.Hour * 24 * time.Duration(ArgExpireDays))
-	template.IsCA = ArgCertAuthority
+	// a certificate that is being cross-signed keeps its CA constraint
+	template.IsCA = template.IsCA || ArgCertAuthority
 	template.BasicConstraintsValid = true
 	ski, err := SubjectKeyID(subjectPub)
 	if err != nil {
